@@ -11,6 +11,7 @@ import Dlismodel.Model.Iflr
 import Dlismodel.Model.Api
 import Dlismodel.Model.Output
 import Dlismodel.Model.Index
+import Dlismodel.Model.FrameIdx
 import Dlismodel.Model.Hc
 import Dlismodel.Model.File
 import Dlismodel.Model.DriverConv
@@ -331,6 +332,40 @@ def handleWfile : List String → String
     | _, _, _, _, _, _, _ => "bad"
   | _ => "bad"
 
+/-- `fidx <min> <max> <spacing*2> <inc|dec|~> <steps…>`: successive setups of ONE frame; a step is
+`S <hc> <indexed> <rows> <min> <max> <spacing*2> <direction>`, the last four being `=` or a value the user assigns
+before the write; reply per step `ok|err min max spacing*2 direction`, joined by `;` -/
+def pOptInt (t : String) : Option (Option Int) := if t == "~" then some none else t.toInt?.map some
+def pOptDir (t : String) : Option (Option Bool) :=
+  if t == "~" then some none else if t == "inc" then some (some true) else if t == "dec" then some (some false) else none
+def showPartInt (p : IdxPart Int) : String := match p.held with | none => "~" | some v => toString v
+def showPartDir (p : IdxPart Bool) : String := match p.held with | none => "~" | some true => "inc" | some false => "dec"
+
+partial def runFidxSteps (s : FrameIdx) (acc : List String) : List String → String
+  | [] => ";".intercalate acc.reverse
+  | "S" :: hc :: indexed :: rows :: amn :: amx :: asp :: adi :: rest =>
+    match (if rows == "-" then some [] else (rows.splitOn ",").mapM String.toInt?) with
+    | some xs =>
+      let upd {α : Type} (t : String) (f : String → Option (Option α)) (p : IdxPart α) : Option (IdxPart α) :=
+        if t == "=" then some p else (f t).map IdxPart.user
+      match upd amn pOptInt s.imin, upd amx pOptInt s.imax, upd asp pOptInt s.spacing, upd adi pOptDir s.direction with
+      | some a, some b, some c, some d =>
+        let s0 : FrameIdx := { imin := a, imax := b, spacing := c, direction := d }
+        let (s1, r) := frameSetup (hc == "1") (indexed == "1") xs s0
+        let line := (match r with | .ok _ => "ok" | .error _ => "err") ++ " " ++ showPartInt s1.imin ++ " " ++
+          showPartInt s1.imax ++ " " ++ showPartInt s1.spacing ++ " " ++ showPartDir s1.direction
+        runFidxSteps s1 (line :: acc) rest
+      | _, _, _, _ => "bad"
+    | none => "bad"
+  | _ => "bad"
+
+def handleFidx : List String → String
+  | mn :: mx :: sp :: di :: steps =>
+    match pOptInt mn, pOptInt mx, pOptInt sp, pOptDir di with
+    | some a, some b, some c, some d => runFidxSteps (FrameIdx.user a b c d) [] steps
+    | _, _, _, _ => "bad"
+  | _ => "bad"
+
 def handle (ws : List String) : String :=
   match ws with
   | ["U", k, v] => match k.toNat?, v.toInt? with
@@ -486,6 +521,7 @@ def handle (ws : List String) : String :=
   | "asg" :: rest => handleAsg rest
   | "convof" :: rest => handleConvOf rest
   | "dflt" :: rest => handleDflt rest
+  | "fidx" :: rest => handleFidx rest
   | "dsn" :: rest => handleDsn rest
   | ["hcstr", s] => match parseCps s with
     | some s => if hcString s then "1" else "0" | none => "bad"
